@@ -28,3 +28,36 @@ Example C06_klv_example :
   map pseq (concat (enc_many 2 65534 [[1;2;3]; [4]; [5;6]])) = [65534; 65535; 0; 1]
   /\ map pmarker (concat (enc_many 2 65534 [[1;2;3]; [4]; [5;6]])) = [false; true; true; true].
 Proof. split; reflexivity. Qed.
+
+(* ---- the translated kernels (tools/go2coq, regenerated from the Go source on every run) ----
+   The integer formulas of rtpklv/encoder.go - the single-packet test len(unit) <= PayloadMaxSize and EVERY statement of
+   the fragmentation loop: payloadSize := PayloadMaxSize, its clipping offset+payloadSize > len(unit) -> len(unit) -
+   offset, isLast := (offset + payloadSize) >= len(unit), Marker: isLast, offset += payloadSize - run over the kernels
+   (Bridge.frag_code; only the loop condition offset < len(unit) is hand-written) yield exactly the offsets, payload
+   sizes and markers of the packets of Model.enc (chunks max unit, marker on the last); the two e.sequenceNumber++ are
+   seq_next; the single packet carries the marker. *)
+From Coq Require Import ZArith.
+From GVG Require Import Kern.
+From GV_klv Require Import BridgeLib Bridge.
+Open Scope Z_scope.
+
+Theorem C06_klv_kernels_are_the_code : forall (max seq s : N) (unit : bytes),
+  (0 < max)%N -> Z.of_N (nlen unit) + Z.of_N max < i64max ->
+  k_klv_single (Z.of_N (nlen unit)) (Z.of_N max) = (nlen unit <=? max)%N /\
+  ((max < nlen unit)%N -> frag_code unit (Z.of_N max) = pkt_marks 0 (fst (enc max seq unit))) /\
+  k_klv_seq_single (Z.of_N s) = Z.of_N (seq_next s) /\ k_klv_seq_frag (Z.of_N s) = Z.of_N (seq_next s) /\
+  k_klv_marker_single = true.
+Proof. exact enc_kernels_are_the_code. Qed.
+Print Assumptions C06_klv_kernels_are_the_code.
+
+(* the translated kernels compute, on the boundaries: a unit of exactly the limit is sent alone, one byte more is
+   fragmented; 7 bytes with limit 3 give offsets 0,3,6, sizes 3,3,1, marker on the third; 6 bytes give two full packets,
+   marker on the second; 65535++ = 0 *)
+Example C06_klv_example_kernels :
+  k_klv_single 1450 1450 = true /\ k_klv_single 1451 1450 = false /\
+  frag_code [1; 2; 3; 4; 5; 6; 7]%N 3 = [(0, 3, false); (3, 3, false); (6, 1, true)] /\
+  frag_code [1; 2; 3; 4; 5; 6]%N 3 = [(0, 3, false); (3, 3, true)] /\
+  pkt_marks 0 (fst (enc 3 9 [1; 2; 3; 4; 5; 6; 7]%N)) = [(0, 3, false); (3, 3, false); (6, 1, true)] /\
+  k_klv_over 3 3 6 = false /\ k_klv_over 3 3 5 = true /\ k_klv_islast 0 3 3 = true /\ k_klv_islast 0 3 4 = false /\
+  k_klv_seq_frag 65535 = 0 /\ k_klv_seq_single 65535 = 0.
+Proof. vm_compute. repeat split. Qed.
